@@ -729,6 +729,7 @@ let run_line c (l : string) seq =
         let q4 () = let a = num t in let b = num t in let cc = num t in let d = num t in { qx = a; qy = b; qz = cc; qw = d } in
         let oq q = od q.qx; od q.qy; od q.qz; od q.qw in
         let rbi () = let ms = num t in let cm = v3 t in let ic = m3 t in rbi_from_mci fo ms cm ic in
+        let post = ref None in
         line "o" seq ("l1_" ^ op) (fun () ->
           match op with
           | "apply" -> let x = st () in osv (st_apply fo x (sv t))
@@ -747,12 +748,21 @@ let run_line c (l : string) seq =
           | "crossf" -> let a = sv t in osv (crossf fo a (sv t))
           | "qmul" -> let a = q4 () in oq (qmul fo a (q4 ()))
           | "qtomat" -> om3 (qtoMatrix fo (q4 ()))
-          | "qfrommat" -> oq (qfromMatrix fo (m3 t))
+          | "qfrommat" -> let e = m3 t in let qm = qfromMatrix fo e in oq qm; post := Some (e, qm)
           | "qrot" -> let a = q4 () in ov3 (qrotate fo a (v3 t))
           | "qomega" -> let a = q4 () in oq (qomegaToQDot fo a (v3 t))
           | "xrot" -> let ang = num t in ost (xrot fo ang (v3 t))
           | "gauss" -> let n = integer t in let a = List.init n (fun _ -> List.init n (fun _ -> num t)) in let b = vec t in ovec (gauss_elim_pivot fo a b)
-          | _ -> os "unknown-op")
+          | _ -> os "unknown-op");
+        (match !post with
+         | Some (e, qm) ->
+           (* round trip on the implementation's quaternion: unit norm and toMatrix (fromMatrix E) = E *)
+           let qi = (match impl_or seq "l1_qfrommat" [qm.qx; qm.qy; qm.qz; qm.qw] with [a; b; cc; d] -> { qx = a; qy = b; qz = cc; qw = d } | _ -> qm) in
+           let r = qtoMatrix fo qi in
+           let dev = List.fold_left max 0. (List.map2 (fun a b -> abs_float (a -. b))
+                       [r.m00; r.m01; r.m02; r.m10; r.m11; r.m12; r.m20; r.m21; r.m22] [e.m00; e.m01; e.m02; e.m10; e.m11; e.m12; e.m20; e.m21; e.m22]) in
+           line "c" seq "qfrommat_roundtrip" (fun () -> od dev; od 1.)
+         | None -> ())
       | "csolver" -> ignore (integer t)
       | "contact" ->
         let rs = str t in let id = ref_id c rs in let p = v3 t in let nr = v3 t in
